@@ -308,6 +308,9 @@ func checkC17(c *Ctx, r *Report) {
 			r.Check(!dead, "C17.R3", "Parse: branch on flag "+phi.Comment+" is live", c.InstrPos(iff), "the flag can be both true and false when tested", "the rejection guarded by '"+phi.Comment+"' can never fire: the flag is always "+strings.Join(uniq(vals), "/")+" when tested (the loop leaves right after setting it), so trailing characters after the unit are accepted")
 		}
 		r.Floor("C17.R3", nFlag, 2, "flag-guarded rejections in Parse")
+		// "means digits times unit": the digits are accumulated without wrapping around
+		nAccB := checkAccumulators(c, r, li, "C17.R3", func(pk string) bool { return pk == "reservoir/utils/bytesize" })
+		r.Floor("C17.R3", nAccB, 1, "decimal accumulators in package bytesize")
 		// success return only after the whole string was consumed and a digit was seen
 		eachInstr(f, func(in ssa.Instruction) {
 			ret, ok := in.(*ssa.Return)
